@@ -4,15 +4,453 @@ namespace DSV.GcRace
 
 theorem reach_run (mf : Bool) (u : List Nat) (files : Nat → Option FileSt) (committed : List Nat) (sched : List (Nat × Act)) :
     ∀ s s', Reach mf u files committed s → (∀ p ∈ sched, p.1 ≥ 1 ∧ ∀ f o, p.2 = .txMarker f o → f ∈ u) →
-      run mf u s sched = some s' → Reach mf u files committed s' := by sorry
+      run mf u s sched = some s' → Reach mf u files committed s' := by
+  induction sched with
+  | nil =>
+    intro s s' hr _ h
+    simp only [run, Option.some.injEq] at h
+    exact h ▸ hr
+  | cons p rest ih =>
+    intro s s' hr hall h
+    obtain ⟨a, act⟩ := p
+    simp only [run] at h
+    split at h
+    · rename_i s1 hstep
+      have hp := hall (a, act) (List.mem_cons_self ..)
+      exact ih s1 s' (Reach.step a act hr hp.1 hp.2 hstep)
+        (fun q hq => hall q (List.mem_cons_of_mem _ hq)) h
+    · cases h
+
+/-- a file the collector's age test lets through is not `Young` -/
+def Young (st : FileSt) : Prop := st.oldAtStart = false ∨ st.bornInRun = true
+
+/-- inductive invariant of the markers-first system -/
+structure Inv (u : List Nat) (s : Sys) : Prop where
+  C : ∀ f ∈ s.committed, ∃ st, s.files f = some st ∧ st.exists_ = true ∧ (st.owner = 0 ∨ s.tx st.owner ≠ .active)
+  Del : ∀ f ∈ s.deleted, s.files f = none
+  M1 : ∀ f st, s.files f = some st → f ∈ u
+  M2 : ∀ f st, s.files f = some st → st.owner ≥ 1 → s.tx st.owner = .active → st.marker = true
+  M3 : ∀ f st, s.files f = some st → st.owner ≥ 1 → st.exists_ = true → s.tx st.owner ≠ .active → f ∈ s.committed
+  R : s.gc = .start ∨ s.running = true
+  GM : ∀ p, s.gc = .gotMarkers p → ∀ f st, s.files f = some st → st.exists_ = true → st.owner ≥ 1 →
+        f ∈ s.committed ∨ f ∈ p ∨ Young st
+  GD : ∀ r p, s.gc = .deleting r p → ∀ f st, s.files f = some st → st.exists_ = true → (f ∈ s.committed ∨ st.owner ≥ 1) →
+        f ∈ r ∨ f ∈ p ∨ Young st
+
+theorem inv_init (u : List Nat) (files : Nat → Option FileSt) (committed : List Nat) (h0 : InitOk files committed u) :
+    Inv u (init files committed) := by
+  obtain ⟨h1, h2⟩ := h0
+  refine ⟨?_, ?_, ?_, ?_, ?_, ?_, ?_, ?_⟩
+  · intro f hf
+    obtain ⟨st, hst⟩ := h2 f hf
+    have := h1 f st hst
+    exact ⟨st, hst, this.2.2.1, Or.inl this.1⟩
+  · intro f hf; cases hf
+  · intro f st hst; exact (h1 f st hst).2.2.2.2
+  · intro f st hst ho; have := (h1 f st hst).1; omega
+  · intro f st hst ho; have := (h1 f st hst).1; omega
+  · exact Or.inl rfl
+  · intro p hp; cases hp
+  · intro r p hp; cases hp
+
+theorem inv_step (u : List Nat) (s s' : Sys) (a : Nat) (act : Act) (h : Inv u s) (ha : a ≥ 1)
+    (hu : ∀ f o, act = .txMarker f o → f ∈ u) (hs : step true u s a act = some s') : Inv u s' := by
+  cases act with
+  | txMarker f old =>
+    simp only [step] at hs
+    split at hs
+    · rename_i htx hfn
+      split at hs
+      · cases hs
+      · rename_i hc
+        injection hs with hs; subst hs
+        have hfd : f ∉ s.deleted := by
+          intro hm; apply hc; simp [hm]
+        refine ⟨?_, ?_, ?_, ?_, ?_, ?_, ?_, ?_⟩
+        · intro x hx
+          obtain ⟨st, e1, e2, e3⟩ := h.C x hx
+          have hne : x ≠ f := by intro e; subst e; rw [hfn] at e1; cases e1
+          exact ⟨st, by simp [setFile, hne, e1], e2, e3⟩
+        · intro x hx
+          have hne : x ≠ f := by intro e; subst e; exact hfd hx
+          simp [setFile, hne, h.Del x hx]
+        · intro x st hx
+          by_cases e : x = f
+          · subst e; exact hu x old rfl
+          · simp [setFile, e] at hx; exact h.M1 x st hx
+        · intro x st hx
+          by_cases e : x = f
+          · subst e; simp [setFile] at hx; subst hx; intros; rfl
+          · simp [setFile, e] at hx; exact h.M2 x st hx
+        · intro x st hx
+          by_cases e : x = f
+          · subst e; simp [setFile] at hx; subst hx; intro _ hh; cases hh
+          · simp [setFile, e] at hx; exact h.M3 x st hx
+        · exact h.R
+        · intro p hp x st hx
+          by_cases e : x = f
+          · subst e; simp [setFile] at hx; subst hx; intro hh; cases hh
+          · simp [setFile, e] at hx; exact h.GM p hp x st hx
+        · intro r p hp x st hx
+          by_cases e : x = f
+          · subst e; simp [setFile] at hx; subst hx; intro hh; cases hh
+          · simp [setFile, e] at hx; exact h.GD r p hp x st hx
+    · cases hs
+  | txWrite f =>
+    simp only [step] at hs
+    split at hs
+    · rename_i st0 htx hfs
+      split at hs
+      · rename_i hc
+        injection hs with hs; subst hs
+        obtain ⟨hc1, hc2, hc3⟩ := hc
+        refine ⟨?_, ?_, ?_, ?_, ?_, ?_, ?_, ?_⟩
+        · intro x hx
+          obtain ⟨st, e1, e2, e3⟩ := h.C x hx
+          by_cases e : x = f
+          · subst e; rw [hfs] at e1; cases e1; simp [e2] at hc3
+          · exact ⟨st, by simp [setFile, e, e1], e2, e3⟩
+        · intro x hx
+          have hne : x ≠ f := by intro e; subst e; rw [h.Del x hx] at hfs; cases hfs
+          simp [setFile, hne, h.Del x hx]
+        · intro x st hx
+          by_cases e : x = f
+          · subst e; exact h.M1 x st0 hfs
+          · simp [setFile, e] at hx; exact h.M1 x st hx
+        · intro x st hx
+          by_cases e : x = f
+          · subst e; simp [setFile] at hx; subst hx; intros; exact hc2
+          · simp [setFile, e] at hx; exact h.M2 x st hx
+        · intro x st hx
+          by_cases e : x = f
+          · subst e; simp [setFile] at hx; subst hx
+            intro _ _ hh; exact absurd (hc1 ▸ htx) hh
+          · simp [setFile, e] at hx; exact h.M3 x st hx
+        · exact h.R
+        · intro p hp x st hx
+          by_cases e : x = f
+          · subst e; simp [setFile] at hx; subst hx
+            intro _ _
+            rcases h.R with hr | hr
+            · replace hp : s.gc = _ := hp
+              rw [hr] at hp; cases hp
+            · exact Or.inr (Or.inr (Or.inr hr))
+          · simp [setFile, e] at hx; exact h.GM p hp x st hx
+        · intro r p hp x st hx
+          by_cases e : x = f
+          · subst e; simp [setFile] at hx; subst hx
+            intro _ _
+            rcases h.R with hr | hr
+            · replace hp : s.gc = _ := hp
+              rw [hr] at hp; cases hp
+            · exact Or.inr (Or.inr (Or.inr hr))
+          · simp [setFile, e] at hx; exact h.GD r p hp x st hx
+      · cases hs
+    · cases hs
+  | txFlip =>
+    simp only [step] at hs
+    split at hs
+    · rename_i htx
+      injection hs with hs; subst hs
+      have hfilt : ∀ x, x ∈ u.filter (fun f => ownedBy s a f && ((s.files f).map (·.exists_)).getD false) →
+          ∃ st, s.files x = some st ∧ st.owner = a ∧ st.exists_ = true := by
+        intro x hx
+        rw [List.mem_filter] at hx
+        obtain ⟨_, hx⟩ := hx
+        unfold ownedBy at hx
+        cases hfx : s.files x with
+        | none => rw [hfx] at hx; simp at hx
+        | some st => rw [hfx] at hx; simp at hx; exact ⟨st, rfl, hx.1, hx.2⟩
+      refine ⟨?_, ?_, ?_, ?_, ?_, ?_, ?_, ?_⟩
+      · intro x hx
+        replace hx : x ∈ s.committed ++ _ := hx
+        rw [List.mem_append] at hx
+        rcases hx with hx | hx
+        · obtain ⟨st, e1, e2, e3⟩ := h.C x hx
+          refine ⟨st, e1, e2, ?_⟩
+          rcases e3 with e3 | e3
+          · exact Or.inl e3
+          · right
+            show (if st.owner = a then TxPc.flipped else s.tx st.owner) ≠ TxPc.active
+            split
+            · intro hh; cases hh
+            · exact e3
+        · obtain ⟨st, e1, e2, e3⟩ := hfilt x hx
+          refine ⟨st, e1, e3, Or.inr ?_⟩
+          show (if st.owner = a then TxPc.flipped else s.tx st.owner) ≠ TxPc.active
+          rw [if_pos e2]; intro hh; cases hh
+      · exact h.Del
+      · exact h.M1
+      · intro x st hx ho ht
+        replace ht : (if st.owner = a then TxPc.flipped else s.tx st.owner) = TxPc.active := ht
+        split at ht
+        · cases ht
+        · exact h.M2 x st hx ho ht
+      · intro x st hx ho he ht
+        replace hx : s.files x = some st := hx
+        replace ht : (if st.owner = a then TxPc.flipped else s.tx st.owner) ≠ TxPc.active := ht
+        show x ∈ s.committed ++ _
+        rw [List.mem_append]
+        by_cases e : st.owner = a
+        · right
+          rw [List.mem_filter]
+          refine ⟨h.M1 x st hx, ?_⟩
+          simp [ownedBy, hx, e, he]
+        · rw [if_neg e] at ht
+          exact Or.inl (h.M3 x st hx ho he ht)
+      · exact h.R
+      · intro p hp x st hx he ho
+        rcases h.GM p hp x st hx he ho with hh | hh
+        · left; show x ∈ s.committed ++ _; exact List.mem_append_left _ hh
+        · exact Or.inr hh
+      · intro r p hp x st hx he hco
+        replace hx : s.files x = some st := hx
+        apply h.GD r p hp x st hx he
+        rcases hco with hco | hco
+        · replace hco : x ∈ s.committed ++ _ := hco
+          rw [List.mem_append] at hco
+          rcases hco with hco | hco
+          · exact Or.inl hco
+          · obtain ⟨st', e1, e2, e3⟩ := hfilt x hco
+            rw [hx] at e1; cases e1
+            right; omega
+        · exact Or.inr hco
+    · cases hs
+  | txUnmark f =>
+    simp only [step] at hs
+    split at hs
+    · rename_i st0 htx hfs
+      split at hs
+      · rename_i hc1
+        injection hs with hs; subst hs
+        have hta : s.tx st0.owner ≠ TxPc.active := by rw [hc1, htx]; intro hh; cases hh
+        refine ⟨?_, ?_, ?_, ?_, ?_, ?_, ?_, ?_⟩
+        · intro x hx
+          obtain ⟨st, e1, e2, e3⟩ := h.C x hx
+          by_cases e : x = f
+          · subst e; rw [hfs] at e1; cases e1
+            exact ⟨{ st0 with marker := false }, by simp [setFile], e2, e3⟩
+          · exact ⟨st, by simp [setFile, e, e1], e2, e3⟩
+        · intro x hx
+          have hne : x ≠ f := by intro e; subst e; rw [h.Del x hx] at hfs; cases hfs
+          simp [setFile, hne, h.Del x hx]
+        · intro x st hx
+          by_cases e : x = f
+          · subst e; exact h.M1 x st0 hfs
+          · simp [setFile, e] at hx; exact h.M1 x st hx
+        · intro x st hx
+          by_cases e : x = f
+          · subst e; simp [setFile] at hx; subst hx
+            intro _ hh; exact absurd hh hta
+          · simp [setFile, e] at hx; exact h.M2 x st hx
+        · intro x st hx
+          by_cases e : x = f
+          · subst e; simp [setFile] at hx; subst hx
+            intro ho he ht; exact h.M3 x st0 hfs ho he ht
+          · simp [setFile, e] at hx; exact h.M3 x st hx
+        · exact h.R
+        · intro p hp x st hx
+          by_cases e : x = f
+          · subst e; simp [setFile] at hx; subst hx
+            exact h.GM p hp x st0 hfs
+          · simp [setFile, e] at hx; exact h.GM p hp x st hx
+        · intro r p hp x st hx
+          by_cases e : x = f
+          · subst e; simp [setFile] at hx; subst hx
+            exact h.GD r p hp x st0 hfs
+          · simp [setFile, e] at hx; exact h.GD r p hp x st hx
+      · cases hs
+    · cases hs
+  | txFinish =>
+    simp only [step] at hs
+    split at hs
+    · rename_i htx
+      injection hs with hs; subst hs
+      refine ⟨?_, h.Del, h.M1, ?_, ?_, h.R, h.GM, h.GD⟩
+      · intro x hx
+        obtain ⟨st, e1, e2, e3⟩ := h.C x hx
+        refine ⟨st, e1, e2, ?_⟩
+        rcases e3 with e3 | e3
+        · exact Or.inl e3
+        · right
+          show (if st.owner = a then TxPc.finished else s.tx st.owner) ≠ TxPc.active
+          split
+          · intro hh; cases hh
+          · exact e3
+      · intro x st hx ho ht
+        replace ht : (if st.owner = a then TxPc.finished else s.tx st.owner) = TxPc.active := ht
+        split at ht
+        · cases ht
+        · exact h.M2 x st hx ho ht
+      · intro x st hx ho he ht
+        replace ht : (if st.owner = a then TxPc.finished else s.tx st.owner) ≠ TxPc.active := ht
+        by_cases e : st.owner = a
+        · exact h.M3 x st hx ho he (by rw [e, htx]; intro hh; cases hh)
+        · rw [if_neg e] at ht
+          exact h.M3 x st hx ho he ht
+    · cases hs
+  | txRollback =>
+    simp only [step] at hs
+    split at hs
+    · rename_i htx
+      injection hs with hs; subst hs
+      have hkeep : ∀ x st, (if ownedBy s a x then none else s.files x) = some st →
+          s.files x = some st ∧ st.owner ≠ a := by
+        intro x st hx
+        split at hx
+        · cases hx
+        · rename_i hno
+          refine ⟨hx, ?_⟩
+          intro e; apply hno; simp [ownedBy, hx, e]
+      refine ⟨?_, ?_, ?_, ?_, ?_, h.R, ?_, ?_⟩
+      · intro x hx
+        obtain ⟨st, e1, e2, e3⟩ := h.C x hx
+        have hne : st.owner ≠ a := by
+          rcases e3 with e3 | e3
+          · omega
+          · intro e; rw [e] at e3; exact e3 htx
+        refine ⟨st, ?_, e2, ?_⟩
+        · show (if ownedBy s a x then none else s.files x) = some st
+          have : ownedBy s a x = false := by simp [ownedBy, e1, hne]
+          simp [this, e1]
+        · rcases e3 with e3 | e3
+          · exact Or.inl e3
+          · right
+            show (if st.owner = a then TxPc.rolledBack else s.tx st.owner) ≠ TxPc.active
+            rw [if_neg hne]; exact e3
+      · intro x hx
+        show (if ownedBy s a x then none else s.files x) = none
+        simp [h.Del x hx]
+      · intro x st hx
+        exact h.M1 x st (hkeep x st hx).1
+      · intro x st hx ho ht
+        obtain ⟨k1, k2⟩ := hkeep x st hx
+        replace ht : (if st.owner = a then TxPc.rolledBack else s.tx st.owner) = TxPc.active := ht
+        rw [if_neg k2] at ht
+        exact h.M2 x st k1 ho ht
+      · intro x st hx ho he ht
+        obtain ⟨k1, k2⟩ := hkeep x st hx
+        replace ht : (if st.owner = a then TxPc.rolledBack else s.tx st.owner) ≠ TxPc.active := ht
+        rw [if_neg k2] at ht
+        exact h.M3 x st k1 ho he ht
+      · intro p hp x st hx
+        exact h.GM p hp x st (hkeep x st hx).1
+      · intro r p hp x st hx
+        exact h.GD r p hp x st (hkeep x st hx).1
+    · cases hs
+  | gcReadMeta =>
+    simp only [step] at hs
+    split at hs
+    · simp at hs
+    · rename_i p hgc
+      simp only [if_true] at hs
+      injection hs with hs; subst hs
+      refine ⟨h.C, h.Del, h.M1, h.M2, h.M3, ?_, ?_, ?_⟩
+      · rcases h.R with hr | hr
+        · rw [hr] at hgc; cases hgc
+        · exact Or.inr hr
+      · intro p' hp'; cases hp'
+      · intro r p' hp' x st hx he hco
+        replace hp' : GcPc.deleting s.committed p = GcPc.deleting r p' := hp'
+        injection hp' with hr hp'; subst hr; subst hp'
+        rcases hco with hco | hco
+        · exact Or.inl hco
+        · exact h.GM p hgc x st hx he hco
+    · cases hs
+  | gcReadMarkers =>
+    simp only [step] at hs
+    split at hs
+    · rename_i hgc
+      simp only [if_true] at hs
+      injection hs with hs; subst hs
+      refine ⟨h.C, h.Del, h.M1, h.M2, h.M3, Or.inr rfl, ?_, ?_⟩
+      · intro p' hp' x st hx he ho
+        replace hx : s.files x = some st := hx
+        replace hp' : GcPc.gotMarkers _ = GcPc.gotMarkers p' := hp'
+        injection hp' with hp'; subst hp'
+        by_cases ht : s.tx st.owner = TxPc.active
+        · right; left
+          rw [List.mem_filter]
+          exact ⟨h.M1 x st hx, by simp [hx, h.M2 x st hx ho ht]⟩
+        · exact Or.inl (h.M3 x st hx ho he ht)
+      · intro r p' hp'; cases hp'
+    · simp at hs
+    · cases hs
+  | gcDelete f =>
+    simp only [step] at hs
+    split at hs
+    · rename_i r p st0 hgc hfs
+      split at hs
+      · rename_i hc
+        injection hs with hs; subst hs
+        simp only [Bool.and_eq_true, Bool.not_eq_true', List.contains_eq_mem, decide_eq_false_iff_not] at hc
+        obtain ⟨⟨⟨⟨c1, c2⟩, c3⟩, c4⟩, c5⟩ := hc
+        have hnc : f ∉ s.committed := by
+          intro hm
+          rcases h.GD r p hgc f st0 hfs c1 (Or.inl hm) with hh | hh | hh | hh
+          · exact c2 hh
+          · exact c3 hh
+          · rw [c4] at hh; cases hh
+          · rw [c5] at hh; cases hh
+        have hkeep : ∀ x st, (if x = f then none else s.files x) = some st → s.files x = some st := by
+          intro x st hx
+          split at hx
+          · cases hx
+          · exact hx
+        refine ⟨?_, ?_, ?_, ?_, ?_, h.R, ?_, ?_⟩
+        · intro x hx
+          obtain ⟨st, e1, e2, e3⟩ := h.C x hx
+          have hne : x ≠ f := by intro e; subst e; exact hnc hx
+          exact ⟨st, by simp [setFile, hne, e1], e2, e3⟩
+        · intro x hx
+          replace hx : x ∈ f :: s.deleted := hx
+          show (if x = f then none else s.files x) = none
+          rcases List.mem_cons.mp hx with hx | hx
+          · simp [hx]
+          · simp [h.Del x hx]
+        · intro x st hx; exact h.M1 x st (hkeep x st hx)
+        · intro x st hx; exact h.M2 x st (hkeep x st hx)
+        · intro x st hx; exact h.M3 x st (hkeep x st hx)
+        · intro p' hp' x st hx; exact h.GM p' hp' x st (hkeep x st hx)
+        · intro r' p' hp' x st hx; exact h.GD r' p' hp' x st (hkeep x st hx)
+      · injection hs with hs; subst hs; exact h
+    · cases hs
+  | gcFinish =>
+    simp only [step] at hs
+    split at hs
+    · rename_i r p hgc
+      injection hs with hs; subst hs
+      refine ⟨h.C, h.Del, h.M1, h.M2, h.M3, ?_, ?_, ?_⟩
+      · rcases h.R with hr | hr
+        · rw [hr] at hgc; cases hgc
+        · exact Or.inr hr
+      · intro p' hp'; cases hp'
+      · intro r' p' hp'; cases hp'
+    · cases hs
+
+theorem inv_reach (u : List Nat) (files : Nat → Option FileSt) (committed : List Nat)
+    (h0 : InitOk files committed u) (s : Sys) (hr : Reach true u files committed s) : Inv u s := by
+  induction hr with
+  | init => exact inv_init u files committed h0
+  | step a act _ ha hu hs ih => exact inv_step u _ _ a act ih ha hu hs
 
 theorem gc_concurrent_safe' (u : List Nat) (files : Nat → Option FileSt) (committed : List Nat)
     (h0 : InitOk files committed u) (s : Sys) (hr : Reach true u files committed s) :
-    ∀ f ∈ s.committed, f ∉ s.deleted ∧ ∃ st, s.files f = some st ∧ st.exists_ = true := by sorry
+    ∀ f ∈ s.committed, f ∉ s.deleted ∧ ∃ st, s.files f = some st ∧ st.exists_ = true := by
+  have h := inv_reach u files committed h0 s hr
+  intro f hf
+  obtain ⟨st, e1, e2, _⟩ := h.C f hf
+  refine ⟨?_, st, e1, e2⟩
+  intro hd
+  rw [h.Del f hd] at e1; cases e1
 
 /-- files of a transaction that has not flipped yet are not deleted by the collector while their marker stands -/
 theorem inflight_protected' (u : List Nat) (files : Nat → Option FileSt) (committed : List Nat)
     (h0 : InitOk files committed u) (s : Sys) (hr : Reach true u files committed s) (f : Nat) (st : FileSt)
-    (hf : s.files f = some st) (ho : st.owner ≥ 1) : f ∉ s.deleted := by sorry
+    (hf : s.files f = some st) (ho : st.owner ≥ 1) : f ∉ s.deleted := by
+  have h := inv_reach u files committed h0 s hr
+  have _ := ho
+  intro hd
+  rw [h.Del f hd] at hf; cases hf
 
 end DSV.GcRace
